@@ -34,23 +34,22 @@ _UND_FMT = ('printing: only the rounding step in front of the digit printer is u
 _UND_PARSE = ('parsing: Repr::from_str_native is proved against an ASCII string model (opaque `str` stub with the contracts of '
               'the core::str methods; non-ASCII input outside the contract) and the ASSUMED contract of UBig::from_str_radix '
               '(positional value, optional leading +). Proved for accepted texts only: that malformed text is rejected is not '
-              'part of the contract (observed: base 2 `0x.` is accepted as zero with precision 0). KNOWN DEFECT REGIONS excluded '
-              'by precondition: (1) a `+` at the start of the integer part (after the sign / 0x prefix) or of the fraction '
-              'part is accepted and counted as a digit position: "1.+5" = 1.05 (precision 3), "-+5" = -5 (precision 2), '
-              '"0x1.+8" = 1.03125 (precision 12); (2) `exponent -= fract_digits` overflows isize for a scale within 4*len of '
-              'isize::MIN (panic in debug builds instead of Err). FromStr::from_str (one-line forwarder to FBig::from_str_native, a trait-impl method) is '
-              'not a separate unit. A bounded Kani group on the real parser was tried '
-              'and abandoned: 3 symbolic characters in base 2 exceed 600 s / 5 GB of CBMC.')
+              'part of the contract (observed: base 2 `0x.` is accepted as zero with precision 0). The two defect regions '
+              'formerly excluded by precondition are repaired (proposed_fixes IO2: an inner `+` is rejected; IO3: '
+              '`scale - fraction digits` is computed with checked_sub) and the preconditions are gone. Still outside the '
+              'contract: isize overflow of the exponent inside Repr::new (normalisation adds the number of stripped zeros: '
+              'DBig::from_str("10e9223372036854775807") panics in debug builds; the Repr::new stub does not model it). '
+              'FromStr::from_str (one-line forwarder to FBig::from_str_native, a trait-impl method) is not a separate unit. '
+              'A bounded Kani group on the real parser was tried and abandoned: 3 symbolic characters in base 2 exceed '
+              '600 s / 5 GB of CBMC.')
 
-_UND_BASE = ('base change: only the integer-only shortcuts of Context::convert_base are under contract; the general path '
-             '(ln / exp at doubled precision, f32 estimates) and the small-exponent path stay undecided, and so do '
-             'with_base / to_decimal / to_binary (target precision computed from f32 log2 bounds). KNOWN DEFECTS excluded by '
-             'precondition: the shortcuts "same base" and "B is a power of NewB" (and, outside the contract, the small '
-             'non-negative exponent path) return Exact(..) without rounding to the target precision: '
-             'DBig 1.2345 .with_base_and_precision::<10>(2) = Exact(12345e-4, precision 2); FBig<_,16> 1.234 '
-             '.with_base_and_precision::<2>(4) = Exact(1165 * 2^-10, precision 4); FBig<_,2> 1111011b3 '
-             '.with_base_and_precision::<10>(2) = Exact(984). ilog_exact overflows a word (debug panic / endless loop in '
-             'release) for bases >= 2^32: precondition.')
+_UND_BASE = ('base change: only the integer-only shortcuts of Context::convert_base are under contract (since proposed_fixes IO1 '
+             'every one of them ends in repr_round: the former exclusion "value must fit the target precision" is gone); the '
+             'general path (ln / exp at doubled precision, f32 estimates) and the small-exponent path (also routed through '
+             'repr_round by IO1, checked by its test only) stay undecided, and so do with_base / to_decimal / to_binary: the '
+             'target precision comes from an f32 estimate (proposed_fixes IO4 corrects it with the exact test '
+             'NewB^(p+1) <= B^p; test-verified only). ilog_exact overflows a word (debug panic / endless loop in release) '
+             'for bases >= 2^32: precondition.')
 
 _UND_RT = ('round trip print-then-parse: not decided. The printer tail is not hosted by Verus (see above) and the parser '
            'alone exceeds CBMC (3 symbolic characters: > 600 s); a proof would compose float_parse with a contract of the '
